@@ -21,6 +21,10 @@ func main() {
 		props.C04Worker(os.Args[3:])
 		return
 	}
+	if id == "C05" && os.Args[2] == "--sched" {
+		props.C05SchedWorker(os.Args[3:])
+		return
+	}
 	if id == "C04" && os.Args[2] == "--one" {
 		props.C04One(os.Args[3:])
 		return
